@@ -415,6 +415,7 @@ static int _GD_Change(DIRFILE *D, const char *field_code, const gd_entry_t *N,
           break;
 
         /* Create a temporary file and open it */
+        E->e->u.raw.file[1].subenc = E->e->u.raw.file[0].subenc;
         if (_GD_InitRawIO(D, E, NULL, -1, enc, 0, GD_FILE_WRITE | GD_FILE_TEMP,
               _GD_FileSwapBytes(D, E)))
           break;
